@@ -616,13 +616,45 @@ pub async fn run_pair<S: HStore>(
     }
 }
 
+static CASES_STARTED: std::sync::atomic::AtomicU64 = std::sync::atomic::AtomicU64::new(0);
+static MONITOR: std::sync::Once = std::sync::Once::new();
+
+/// Backstop only (never a verdict): a session future that spins inside a single `poll` without
+/// touching the transport cannot be interrupted or observed from outside. If no case has started
+/// for `STALL_LIMIT` the process reports INCONCLUSIVE and exits 2, like `engine::Watchdog`.
+const STALL_LIMIT: std::time::Duration = std::time::Duration::from_secs(90);
+
+fn start_monitor() {
+    MONITOR.call_once(|| {
+        std::thread::spawn(|| {
+            let mut last = CASES_STARTED.load(Ordering::SeqCst);
+            let mut since = std::time::Instant::now();
+            loop {
+                std::thread::sleep(std::time::Duration::from_millis(500));
+                let now = CASES_STARTED.load(Ordering::SeqCst);
+                if now != last {
+                    last = now;
+                    since = std::time::Instant::now();
+                } else if since.elapsed() > STALL_LIMIT {
+                    println!("INCONCLUSIVE: watchdog fired: no sync case finished or started for {STALL_LIMIT:?} (a session future spins inside poll)");
+                    std::process::exit(2);
+                }
+            }
+        });
+    });
+}
+
 /// Runs `f` on a fresh current-thread runtime (one per case; nothing leaks between cases).
 pub fn block_on<T>(f: impl Future<Output = T>) -> T {
+    start_monitor();
+    CASES_STARTED.fetch_add(1, Ordering::SeqCst);
     let rt = tokio::runtime::Builder::new_current_thread()
         .enable_all()
         .build()
         .unwrap_or_else(|e| engine::harness_error(&format!("cannot build runtime: {e}")));
-    rt.block_on(f)
+    let out = rt.block_on(f);
+    CASES_STARTED.fetch_add(1, Ordering::SeqCst);
+    out
 }
 
 pub fn wire_tags(t: &[Wire]) -> Vec<&'static str> {
